@@ -29,6 +29,8 @@ ASSUMPTIONS = [
     'persistent kinds override wait()/close(); their wait is the same join discipline after close() - not re-proved here',
 ]
 MUTANTS = [
+    ('pyworkers/process.py', "            try:\n                self._ctrl_comms.parent_end.put('terminate')\n", "            self._release_child()\n            try:\n                self._ctrl_comms.parent_end.put('terminate')\n", 'process terminate releases the child before asking it'),
+    ('pyworkers/process.py', "                self._ctrl_comms.parent_end.put('terminate')\n                if self._ctrl_comms.parent_end.poll(timeout):", "                if self._ctrl_comms.parent_end.poll(timeout):", 'process terminate never asks the child'),
     ('pyworkers/process.py', "        self._child.join(timeout)\n        alive = self._child.is_alive()\n        if not alive:\n            self._dead = True\n        return not alive\n\n    def terminate", "        self._child.join()\n        alive = self._child.is_alive()\n        if not alive:\n            self._dead = True\n        return not alive\n\n    def terminate", 'process wait() ignores its timeout'),
     ('pyworkers/thread.py', "        alive = self._child.is_alive()\n        if not alive:\n            self._dead = True\n        return not alive\n\n    def terminate", "        alive = self._child.is_alive()\n        self._dead = True\n        return True\n\n    def terminate", 'thread wait() always claims the worker is dead'),
     ('pyworkers/remote.py', "send_msg(self._ctrl_sock, ('terminate', (remote_timeout, force)), comment='terminate')", "send_msg(self._ctrl_sock, ('terminate', (timeout, True)), comment='terminate')", 'remote terminate always asks the server to force, with the unclamped timeout'),
@@ -141,6 +143,8 @@ def build(ex):
         a = ex_.heap[self_v.addr].attrs
         a['_started'] = ex_.interp.sym('started', 'bool')
         # never-run workers have no child handle; the asserts of is_child are about started workers
+        if '_early_msg' in a:
+            a['_early_msg'] = ex_.interp.sym('early0')        # whatever an earlier wait() may have received ahead of the child's exit (None: nothing)
         install_cost(ex_)
         ex_.ghost['__child__'] = env['child']
         ac = ex_.abs_classes['Conn']
@@ -214,9 +218,21 @@ def build(ex):
                         raises={}, raises_only=[],
                         options={'recv_closed_check': False})
 
+    def early_kept(c):
+        ex_ = c.ex
+        a0 = ex_.old['heap'][c.env['self'].addr].attrs
+        a1 = ex_.heap[c.env['self'].addr].attrs
+        if '_early_msg' not in a0 or '_early_msg' not in a1:
+            return z3.BoolVal(True)
+        e0, e1 = lower(a0['_early_msg'], ex_), lower(a1['_early_msg'], ex_)
+        return z3.Implies(e0 != Val.v_none, e1 != Val.v_none)
+    early_kept.__doc__ = ('C01 (stability across a history of calls): a final message that an earlier wait() has already received from the child is never forgotten by '
+                          'a later one - it may only be replaced by another message')
     for v in timeout_variants():
         lemmas.append((wait_contract(TW, 'Lw-thread', thread_parent), v))
-        lemmas.append((wait_contract(PW, 'Lw-process', proc_parent), v))
+        wp = wait_contract(PW, 'Lw-process', proc_parent)
+        wp.ensures.append(early_kept)
+        lemmas.append((wp, v))
 
     # ------------------------------------------------------------------ terminate
     def term_setup(base):
@@ -231,9 +247,44 @@ def build(ex):
                         ensures=[bounded(k), truthful, idempotent],
                         raises={}, raises_only=[],
                         options={'recv_closed_check': False})
+    # ---- the request itself (C03.L1, parent side of the process kind): written once, and before the child is released from waiting for input
+    TERM = Val.v_str(z3.IntVal(smt.str_code('terminate')))
+
+    def release_hook(i2, fi, a, k, n, s):
+        ex_ = i2.ex
+        if ex_.ghost.get('out_at_release') is None and 'ctrl_parent_obj' in ex_.ghost:
+            ex_.ghost['out_at_release'] = ex_.abs_classes['Conn'].get(ex_, ex_.ghost['ctrl_parent_obj'], 'out')
+        return NONE
+
+    def proc_parent_req(ex_, env):
+        proc_parent(ex_, env)
+        ex_.ghost['ctrl_parent_obj'] = env['ctrl_parent']
+        ex_.ghost['out_at_release'] = None
+
+    def request_delivered(c):
+        ex_ = c.ex
+        ac = ex_.abs_classes['Conn']
+        a0 = ex_.old['heap'][c.env['self'].addr].attrs
+        alive0 = z3.Select(ex_.old['absfields'][('Proc', 'alive')], c.env['child'].key)
+        live = z3.And(a0['_started'].e, z3.Not(a0['_dead'].e), alive0)
+        out = ac.get(ex_, c.env['ctrl_parent'], 'out')
+        out0 = ex_.old['absfields'][('Conn', 'out')]
+        out0 = z3.Select(out0, c.env['ctrl_parent'].key)
+        gone = ac.get(ex_, c.env['ctrl_parent'], 'peer_closed')           # the child's control thread has already left: nothing to ask
+        asked_once = z3.Or(gone, out == z3.Concat(out0, z3.Unit(TERM)))
+        rel = ex_.ghost.get('out_at_release')
+        before_release = z3.BoolVal(True) if rel is None else z3.Or(gone, rel == z3.Concat(out0, z3.Unit(TERM)))
+        # is_alive() may find the child dead on its own (then nothing is asked and nothing is waited for): the clause is about the calls that go on to wait
+        return z3.Implies(z3.And(live, ex_.ghost['joins'] >= 1), z3.And(asked_once, before_release))
+    request_delivered.__doc__ = ('C03.L1 (parent side, process kind): a terminate() that goes on to wait for a live child has written exactly one request, the string \'terminate\', on the control pipe - '
+                                 'and does so BEFORE it releases a child that waits for input (_release_child): a child released first could finish cleanly and the '
+                                 'request would come too late (unless the child\'s control thread has already closed its end)')
     for v in timeout_variants()[1:]:
         lemmas.append((term_contract(TW, 'Lt-thread', thread_parent, 1), v))
-        lemmas.append((term_contract(PW, 'Lt-process', proc_parent, 3), v))
+        tp = term_contract(PW, 'Lt-process', proc_parent_req, 3)
+        tp.ensures.append(request_delivered)
+        tp.options = dict(tp.options, __call_hooks__={workers.W + '._release_child': release_hook})
+        lemmas.append((tp, v))
 
     # ------------------------------------------------------------------ is_alive
     def alive_truthful(c):
@@ -306,6 +357,15 @@ def build(ex):
         return z3.Implies(z3.Length(out) >= 1, z3.And(cmd == Val.v_str(z3.IntVal(smt.str_code('terminate'))), second == Val.v_bool(c.env['force'].e)))
     force_forwarded.__doc__ = "the request sent to the server is ('terminate', (remote timeout, force)) with the caller's force flag"
 
+    def request_sent(c):
+        ex_ = c.ex
+        a0 = ex_.old['heap'][c.env['self'].addr].attrs
+        live = z3.And(a0['_started'].e, z3.Not(a0['_dead'].e), z3.Not(a0['_remote_dead'].e))
+        out = ex_.abs_classes['Conn'].get(ex_, c.env['ctrl'], 'out')
+        return z3.Implies(live, z3.Length(out) >= 1)
+    request_sent.__doc__ = ('C03.L1 (parent side, remote kind): terminate() on a worker that is not known to be dead (locally or remotely) does send the request '
+                            'to the server - the first message on the control socket, whose content the previous clause fixes')
+
     def rterm_setup(ex_, env):
         remote_parent(ex_, env)
         env['force'] = ex_.interp.sym('force', 'bool')
@@ -317,7 +377,7 @@ def build(ex):
                                     params={'self': ('const', None), 'timeout': ('const', None), 'force': ('const', None), 'remote_timeout': ('const', None),
                                             '_release_remote_ctrl': ('const', None)}, self_class=RW,
                                     setup=rterm_setup, returns='bool',
-                                    ensures=[request_bounded('terminate'), force_forwarded, idempotent],
+                                    ensures=[request_bounded('terminate'), force_forwarded, request_sent, idempotent],
                                     raises={'ValueError': lambda c: (c.env['remote_timeout'].e < 0) if c.env['remote_timeout'] is not NONE else z3.BoolVal(False)},
                                     raises_only=['ValueError'],
                                     options={'__call_hooks__': dict(common.MSG_HOOKS), 'recv_closed_check': False, 'on_block': 'end'}), var))
